@@ -15,7 +15,7 @@ from ...pyutils import Undefined
 from ...type import (
     GraphQLSchema,
     GraphQLType,
-    get_named_type,
+    get_nullable_type,
     is_input_object_type,
     is_non_null_type,
     is_nullable_type,
@@ -49,9 +49,8 @@ class VariablesInAllowedPositionRule(ValidationRule):
 
         for usage in usages:
             node, type_ = usage.node, usage.type
-            # The parent input object type may be wrapped as non-null, and an object
-            # literal may stand for a list of one (input coercion of a single item).
-            parent_type = get_named_type(usage.parent_type)
+            # The parent input object type may be wrapped as non-null.
+            parent_type = get_nullable_type(usage.parent_type)
             default_value = usage.default_value
             var_name = node.name.value
             var_def = usage.fragment_variable_definition
